@@ -117,6 +117,22 @@ fn rerun_programs() -> Vec<(String, String, String)> {
     v.push(("prompt session".into(), "start:\nmov ax, 5\nint 3\nprint reg\n".into(), "print reg\nprint flags\nfoo\nn\n".into()));
     v.push(("divide error".into(), "start:\nmov bl, 0\ndiv bl\nprint reg\n".into(), "".into()));
     v.push(("input".into(), "start:\nmov ah, 1\nint 0x21\nprint reg\n".into(), "xyz\n".into()));
+    // refused programs whose diagnostic could be tempted to LIST things the assembler keeps in hash collections
+    // (macros being expanded, labels, procedures, data labels): several of each, so that an order taken from a hash
+    // collection differs between processes
+    let many = "x: db 1\ny: db 2\nz: dw 3\nmacro ma(r) -> inc r <-\nmacro mb(r) -> dec r <-\nmacro mc(r) -> ma(r) mb(r) <-\ndef f {\ninc ax\n}\ndef g {\ninc bx\n}\ndef h {\ncall f\n}\none:\ntwo:\ninc cx\nthree:\nfour:\nmc(dx)\n";
+    v.push(("mutual recursion through two macros".into(), "macro a(x) -> b(x) <-\nmacro b(x) -> a(x) <-\nstart:\na(ax)\n".into(), "".into()));
+    v.push(("mutual recursion through three macros".into(), "macro a(x) -> inc x b(x) <-\nmacro b(x) -> c(x) <-\nmacro c(x) -> a(x) <-\nstart:\ninc ax\nb(ax)\n".into(), "".into()));
+    v.push(("recursion through four macros, one passed by name".into(), "macro a(f,x) -> f (f,x) <-\nmacro b(f,x) -> c(f,x) <-\nmacro c(f,x) -> d(f,x) <-\nmacro d(f,x) -> a(b,x) <-\nstart:\na(b, ax)\n".into(), "".into()));
+    v.push(("no start among many labels, procedures, macros and data labels".into(), many.to_string(), "".into()));
+    v.push(("start is a data label among many names".into(), format!("start: db 9\n{}", many), "".into()));
+    v.push(("duplicate label among many names".into(), format!("{}start:\ntwo:\n", many), "".into()));
+    v.push(("duplicate procedure among many names".into(), format!("{}def g {{\ninc si\n}}\nstart:\n", many), "".into()));
+    v.push(("call of an unknown procedure among many names".into(), format!("{}start:\ncall k\n", many), "".into()));
+    v.push(("jump to a data label among many names".into(), format!("{}start:\njmp y\n", many), "".into()));
+    v.push(("unknown macro among many names".into(), format!("{}start:\nmd(ax)\n", many), "".into()));
+    v.push(("macro used with too few arguments among many names".into(), format!("{}start:\nmc()\n", many), "".into()));
+    v.push(("code label used as data among many names".into(), format!("{}start:\nmov al, byte two\n", many), "".into()));
     v
 }
 
@@ -410,8 +426,8 @@ pub fn run(tier: &Tier) -> i32 {
     let reruns = rerun_programs();
     reruns.par_iter().for_each(|(name, src, stdin)| {
         let first = run_cli(src, stdin, &CliOpts::default());
-        c.add_exec(5);
-        for r in 0..4 {
+        c.add_exec(8);
+        for r in 0..7 {
             let o = run_cli(src, stdin, &CliOpts::default());
             if o.stdout != first.stdout || o.status != first.status || o.signal != first.signal || o.timed_out != first.timed_out {
                 rep.report(Viol {
@@ -875,7 +891,7 @@ pub fn run(tier: &Tier) -> i32 {
     }
     let mut cov = Coverage::default();
     cov.exhaustive = true;
-    cov.rule = format!("(a) {} programs with 1-4 entries in the undefined-label set (every order of appearance of up to 4 undefined labels, forward jumps to defined labels in the same set, a label used twice, missing start, later range error, labels in procedures and macros) each run under ALL iteration orders of the set (hook VERIF_ORDER, k! orders) plus two runs in natural hash order: outputs must be byte-identical; {} further programs (the repository's examples, syntax errors, prompt session, divide error, input) rerun 5 times in separate processes (repetition, not enumeration). (b) VM::new() and VM::default() after every history of <= 2 instructions on another machine: all registers and all 2^20 bytes zero except FLAGS=F000h, CS=FFFFh. (c) explicit-state: all pairs of instruction streams of length <= {} over a {}-instruction alphabet (register, flag, memory, stack{} instructions) on two machines with different initial states sharing ONE Interpreter object, in ALL interleavings; each machine's final registers, call stack, return values and watched memory cells must equal the stream run alone on fresh objects (whole-memory audit on a subset). (d) every history of <= {} lines (12-14 line alphabets: valid, invalid, erroring, REP, call/ret, recursion error) through one Preprocessor / DataParser / Interpreter object followed by each probe line: answer and effect equal a fresh object's; the same for one preprocessor CONTEXT that is cleared with the library's clear() and reused (histories ending in the nesting limit, recursion and range errors), including the source map such a context yields; print reader: histories of <= 2 commands in one prompt session of the real binary. Free-running 8-thread smoke run with private machines (not deciding). Static audit of iteration/static/clock sites listed under unowned_nondeterminism_candidates (a note, not a verdict)", progs.len(), reruns.len(), maxlen, env.alpha.len(), if tier.thorough { ", call/ret, REP, xchg, label operand" } else { "" }, hl);
+    cov.rule = format!("(a) {} programs with 1-4 entries in the undefined-label set (every order of appearance of up to 4 undefined labels, forward jumps to defined labels in the same set, a label used twice, missing start, later range error, labels in procedures and macros) each run under ALL iteration orders of the set (hook VERIF_ORDER, k! orders) plus two runs in natural hash order: outputs must be byte-identical; {} further programs (the repository's examples, syntax errors, prompt session, divide error, input) rerun 8 times in separate processes; among them 12 refused programs with several macros / labels / procedures / data labels each (mutual recursion through 2, 3 and 4 macros, no start, duplicates, unknown names), whose diagnostic must not depend on the order of a hash collection (repetition, not enumeration). (b) VM::new() and VM::default() after every history of <= 2 instructions on another machine: all registers and all 2^20 bytes zero except FLAGS=F000h, CS=FFFFh. (c) explicit-state: all pairs of instruction streams of length <= {} over a {}-instruction alphabet (register, flag, memory, stack{} instructions) on two machines with different initial states sharing ONE Interpreter object, in ALL interleavings; each machine's final registers, call stack, return values and watched memory cells must equal the stream run alone on fresh objects (whole-memory audit on a subset). (d) every history of <= {} lines (12-14 line alphabets: valid, invalid, erroring, REP, call/ret, recursion error) through one Preprocessor / DataParser / Interpreter object followed by each probe line: answer and effect equal a fresh object's; the same for one preprocessor CONTEXT that is cleared with the library's clear() and reused (histories ending in the nesting limit, recursion and range errors), including the source map such a context yields; print reader: histories of <= 2 commands in one prompt session of the real binary. Free-running 8-thread smoke run with private machines (not deciding). Static audit of iteration/static/clock sites listed under unowned_nondeterminism_candidates (a note, not a verdict)", progs.len(), reruns.len(), maxlen, env.alpha.len(), if tier.thorough { ", call/ret, REP, xchg, label operand" } else { "" }, hl);
     cov.bounds = json!({"order_programs": progs.len(), "order_runs": orders_run.load(Ordering::Relaxed), "distinct_first_lines_in_order_runs": distinct_msgs.lock().unwrap().len(), "rerun_programs": reruns.len(), "fresh_machine_checks": fresh_checks.load(Ordering::Relaxed), "streams": streams.len(), "stream_pairs": pairs_n.load(Ordering::Relaxed), "interleaved_runs": inter_n.load(Ordering::Relaxed), "whole_memory_audits": full_audits.load(Ordering::Relaxed), "parser_history_probes": hist_n.load(Ordering::Relaxed), "prompt_session_probes": prompt_hist.load(Ordering::Relaxed), "threads_joined": thread_runs, "tier": tier.name()});
     cov.extra.insert("unowned_nondeterminism_candidates".into(), json!(audit));
     cov.assumptions = common_assumptions();
